@@ -162,11 +162,15 @@ def emul_full_expr(e, l, my_eip, env, machine):
             machine.eval_instr(mov(info, ecx, ExprOp('-', my_ecx, ExprInt(uint32(1)))))
             machine.eval_expr(machine.pool[ecx], {})
 
-            if zf_w :
+            if zf_w and my_ecx.arg != 1:
+                # repe/repne: the count is not exhausted, ZF decides
                 my_zf = machine.eval_expr(machine.pool[zf], {})
-                if 0xF3 in l.prefix and my_zf == 0:
+                if not isinstance(my_zf, ExprInt):
+                    raise ValueError('Emulation fails for "%s". ZF value is %s'
+                        % (l, str(machine.pool[zf])))
+                if 0xF3 in l.prefix and int(my_zf.arg) == 0:
                     break
-                if 0xF2 in l.prefix and my_zf == 1:
+                if 0xF2 in l.prefix and int(my_zf.arg) == 1:
                     break
 
             tsc_inc += 1
